@@ -139,19 +139,21 @@ impl Histogram {
             let mut acc = 0;
             let mut prev_dist = 0u16;
             for (idx, code) in dist.iter_mut().enumerate() {
+                // Skip finished ranges; the next range may start right where the previous one ends.
+                while repeat_range_idx < repeat_ranges.len()
+                    && repeat_ranges[repeat_range_idx].end == idx
+                {
+                    repeat_range_idx += 1;
+                }
                 if repeat_range_idx < repeat_ranges.len()
                     && repeat_ranges[repeat_range_idx].start <= idx
                 {
-                    if repeat_ranges[repeat_range_idx].end == idx {
-                        repeat_range_idx += 1;
-                    } else {
-                        *code = prev_dist;
-                        acc += *code;
-                        if acc > (1 << 12) {
-                            return Err(Error::InvalidAnsHistogram);
-                        }
-                        continue;
+                    *code = prev_dist;
+                    acc += *code;
+                    if acc > (1 << 12) {
+                        return Err(Error::InvalidAnsHistogram);
                     }
+                    continue;
                 }
 
                 if *code == 0 {
